@@ -87,23 +87,41 @@ Proof.
   - rewrite IH by (try lia; intros; apply H; lia). rewrite (H n) by lia. ring.
 Qed.
 
+(* ---- reduced arithmetic for the executable layer -------------------------- *)
+Definition radd (a b : Q) : Q := Qred (a + b).
+Definition rsub (a b : Q) : Q := Qred (a - b).
+Definition rmul (a b : Q) : Q := Qred (a * b).
+Definition rdiv (a b : Q) : Q := Qred (a / b).
+Lemma radd_ok a b : radd a b == a + b. Proof. apply Qred_correct. Qed.
+Lemma rsub_ok a b : rsub a b == a - b. Proof. apply Qred_correct. Qed.
+Lemma rmul_ok a b : rmul a b == a * b. Proof. apply Qred_correct. Qed.
+Lemma rdiv_ok a b : rdiv a b == a / b. Proof. apply Qred_correct. Qed.
+Global Instance radd_comp : Proper (Qeq ==> Qeq ==> Qeq) radd.
+Proof. intros a b E c d F. rewrite !radd_ok, E, F. reflexivity. Qed.
+Global Instance rsub_comp : Proper (Qeq ==> Qeq ==> Qeq) rsub.
+Proof. intros a b E c d F. rewrite !rsub_ok, E, F. reflexivity. Qed.
+Global Instance rmul_comp : Proper (Qeq ==> Qeq ==> Qeq) rmul.
+Proof. intros a b E c d F. rewrite !rmul_ok, E, F. reflexivity. Qed.
+Global Opaque radd rsub rmul rdiv.
+Ltac rarith := rewrite ?radd_ok, ?rsub_ok, ?rmul_ok, ?rdiv_ok.
+
 (* ---- list sums ---------------------------------------------------------- *)
 
-Definition qsum (l : list Q) : Q := fold_right Qplus 0 l.
+Definition qsum (l : list Q) : Q := fold_right radd 0 l.
 
 Definition qnth (l : list Q) (i : nat) : Q := nth i l 0.
 
 Lemma qsum_sumn l : qsum l == sumn (length l) (qnth l).
 Proof.
   induction l as [|a l IH]; [reflexivity|].
-  cbn [length]. rewrite sumn_shift. simpl. rewrite IH. reflexivity.
+  cbn [length]. rewrite sumn_shift. simpl. rarith. rewrite IH. reflexivity.
 Qed.
 
 Lemma qsum_map_sumn {A} (d : A) (f : A -> Q) l :
   qsum (map f l) == sumn (length l) (fun i => f (nth i l d)).
 Proof.
   induction l as [|a l IH]; [reflexivity|].
-  cbn [length map]. rewrite sumn_shift. simpl. rewrite IH. reflexivity.
+  cbn [length map]. rewrite sumn_shift. simpl. rarith. rewrite IH. reflexivity.
 Qed.
 
 (* sum over indices 0..n-1 computed with a list *)
@@ -111,7 +129,7 @@ Lemma qsum_map_seq n f : qsum (map f (seq 0 n)) == sumn n f.
 Proof.
   assert (G : forall s, qsum (map f (seq s n)) == sumn n (fun i => f (s + i)%nat)).
   { induction n as [|n IH]; intros s; [reflexivity|].
-    cbn [seq map]. rewrite sumn_shift. simpl. rewrite IH. rewrite Nat.add_0_r.
+    cbn [seq map]. rewrite sumn_shift. simpl. rarith. rewrite IH. rewrite Nat.add_0_r.
     apply Qplus_comp; [reflexivity|]. apply sumn_ext. intros i _.
     replace (S s + i)%nat with (s + S i)%nat by lia. reflexivity. }
   rewrite G. apply sumn_ext. intros; reflexivity.
@@ -131,7 +149,7 @@ Fixpoint coefAt (e : list (nat * Q)) (i : nat) : Q :=
 Fixpoint dot_sparse (e : list (nat * Q)) (y : list Q) : Q :=
   match e with
   | [] => 0
-  | (k, v) :: r => v * qnth y k + dot_sparse r y
+  | (k, v) :: r => radd (rmul v (qnth y k)) (dot_sparse r y)
   end.
 
 Definition ind_lt (m : nat) (e : list (nat * Q)) : bool :=
@@ -143,7 +161,7 @@ Proof.
   induction e as [|[k v] r IH]; intros H; simpl.
   - symmetry. apply sumn_0. intros; ring.
   - simpl in H. apply andb_true_iff in H. destruct H as [Hk Hr].
-    apply Nat.ltb_lt in Hk. rewrite IH by exact Hr.
+    apply Nat.ltb_lt in Hk. rarith. rewrite IH by exact Hr.
     assert (E : sumn m (fun i => (if Nat.eqb k i then v else 0) * qnth y i) == v * qnth y k).
     { etransitivity.
       - apply (sumn_single m k); [exact Hk|].
